@@ -36,7 +36,7 @@ void h_client_key_shares(void)
 	const uint8_t *p = buf; size_t l = EL;
 	int ret = tls_client_key_shares_from_bytes(&P, &p, &l);
 	if (ret == 1 && g_calls > 0) {
-#if EL >= 69
+#if EL >= 71      /* a list with one share is 2 + 4 + 65 bytes */
 		V_COVER("client key share accepted");
 #endif
  CHECK(g_verdict == 1 && g_len == 65, "every share that was imported passed the validating decoder"); }
